@@ -290,6 +290,11 @@ def c12_script(rng, thorough):
     pairs = [(a, b) for a in edge for b in edge]
     for _ in range(40 if not thorough else 500):
         pairs.append((rng.choice([rng.randrange(2, p - 1), rng.randrange(2, 70000), rng.choice(edge)]), rng.randrange(2, p - 1)))
+    # structured scalars: single bits, runs of ones, neighbours of powers of two (bit-position / carry slips in modexp)
+    for k in range(1, 31):
+        v = rng.choice([2 ** k, 2 ** k + 1, max(2, 2 ** k - 1)]) if k > 1 else 2
+        v = min(max(v, 2), p - 2)
+        pairs.append((v, rng.randrange(2, p - 1)) if k % 2 else (rng.randrange(2, p - 1), v))
     for a, b in pairs:
         lines.append("kx a=%d b=%d" % (a, b))
     nh = 36 if not thorough else 400
